@@ -132,7 +132,17 @@ func c10Scenario(c *choice.Ctx, rep *report.R, alpha []c10Rule, maxLen int, sub 
 	seen := map[string]int{} // upstream -> queries consumed so far
 	nResp := 0
 	obs := ""
-	for round := 0; round < 2; round++ {
+	// round 0: fresh; round 1: 3 s later (cache hits when a cache is configured); round 2: in the last quarter of the 300 s ttl: a
+	// cache hit whose background refresh must go to the selected upstream with exactly that question, and nowhere else
+	rounds := 2
+	if cacheOn {
+		rounds = 3
+	}
+	for round := 0; round < rounds; round++ {
+		if round == 2 {
+			hsleep(240 * time.Second)
+			wait()
+		}
 		for qi, q := range c10Queries() {
 			m := refdns.Query(uint16(0x1000+qi), q.name, q.typ, q.class)
 			sc.SendMsg(m)
@@ -158,7 +168,7 @@ func c10Scenario(c *choice.Ctx, rep *report.R, alpha []c10Rule, maxLen int, sub 
 				seen[tag] = len(qs)
 				want := 0
 				if tag == wantUp && !(cacheOn && round == 1 && tag != failing) {
-					want = 1
+					want = 1 // round 2 with a cache: the one query is the background refresh (or, for a failing upstream, the request itself)
 				}
 				if len(newQs) != want {
 					fail("wrong-upstream-contact", fmt.Sprintf("query %s/%d/%d (round %d): upstream %s received %d queries, reference says %d (selected upstream %q)", q.name, q.class, q.typ, round, tag, len(newQs), want, wantUp))
@@ -213,7 +223,7 @@ func TestVerifC10(t *testing.T) {
 		}
 	}
 	rep.Rule = fmt.Sprintf("E3: all rule lists of length 0..%d over the full %d-rule alphabet {domain none/A/B} x reverse x reject {0,2,3,5} x forward {none,u1,u2} (length-3 lists over a %d-rule sub-alphabet), domain sets A,B share an entry and B is split over two files, "+
-		"cache off/on, no upstream / u1 / u2 failing every exchange, loaded by the real run(); 8 queries (names in A only / B only / both / neither, mixed case; A/IN and TXT/CH) sent twice through the tcp seam; upstreams are recording auto-responders; "+
+		"cache off/on, no upstream / u1 / u2 failing every exchange, loaded by the real run(); 8 queries (names in A only / B only / both / neither, mixed case; A/IN and TXT/CH) sent twice through the tcp seam and, with a cache, a third time in the last quarter of the ttl (hit + background refresh); upstreams are recording auto-responders; "+
 		"oracle vs reference interpreter: client rcode (SERVFAIL when the selected upstream fails), exactly the selected upstream is contacted exactly once (never on the second round with the cache on), forwarded question is lower-cased with same class/type and RD=1, answer is that upstream's answer",
 		maxLen, len(alpha), len(sub))
 	st := runExplore(t, rep, -1, func(c *choice.Ctx) { c10Scenario(c, rep, alpha, maxLen, sub) })
